@@ -32,6 +32,14 @@ func init() {
 			pos     token.Pos
 			fn, rhs string
 		}
+		type optCall struct {
+			pos    token.Pos
+			fn     string
+			clause ast.Node // enclosing case clause (nil: the function body)
+			arg    string
+		}
+		var opts []optCall
+		siteClause := map[token.Pos]ast.Node{}
 		var sites []site
 		var writes []write
 		var newArgs []string
@@ -51,15 +59,23 @@ func init() {
 					stack = append(stack, n)
 					switch x := n.(type) {
 					case *ast.CallExpr:
+						var clause ast.Node
+						for i := len(stack) - 1; i >= 0; i-- {
+							if cc, ok := stack[i].(*ast.CaseClause); ok && len(cc.List) == 1 {
+								clause = cc
+								break
+							}
+						}
 						if sel, ok := x.Fun.(*ast.SelectorExpr); ok && sel.Sel.Name == "renameScope" && len(x.Args) == 1 {
 							node := "-"
-							for i := len(stack) - 1; i >= 0; i-- {
-								if cc, ok := stack[i].(*ast.CaseClause); ok && len(cc.List) == 1 {
-									node = types.ExprString(cc.List[0])
-									break
-								}
+							if cc, ok := clause.(*ast.CaseClause); ok {
+								node = types.ExprString(cc.List[0])
 							}
 							sites = append(sites, site{x.Pos(), fn, node, types.ExprString(x.Args[0])})
+							siteClause[x.Pos()] = clause
+						}
+						if id, ok := x.Fun.(*ast.Ident); ok && id.Name == "optimizeStmtList" && len(x.Args) >= 1 {
+							opts = append(opts, optCall{x.Pos(), fn, clause, types.ExprString(x.Args[0])})
 						}
 						if id, ok := x.Fun.(*ast.Ident); ok && id.Name == "newRenamer" {
 							for _, a := range x.Args {
@@ -189,6 +205,28 @@ func init() {
 				sep = ""
 			}
 			fmt.Fprintf(&b, "  (%s, %s, %s)%s\n", leanStr(s.fn), leanStr(s.node), leanStr(s.arg), sep)
+		}
+		b.WriteString("]\n\n/-- for every call site, in the same order: is the statement list of that scope (`P.List…` for the argument `P.Scope`)\n    handed to `optimizeStmtList` in the same function / case clause \"before\" the `renameScope` call, \"after\" it, or not there at all (\"none\") -/\n")
+		b.WriteString("def siteOrder : List String := [")
+		for i, st := range sites {
+			prefix := strings.TrimSuffix(st.arg, ".Scope") + ".List"
+			order := "none"
+			for _, o := range opts {
+				if o.fn != st.fn || o.clause != siteClause[st.pos] || !strings.HasPrefix(o.arg, prefix) {
+					continue
+				}
+				if o.pos < st.pos {
+					if order == "none" {
+						order = "before"
+					}
+				} else {
+					order = "after"
+				}
+			}
+			if i > 0 {
+				b.WriteString(", ")
+			}
+			b.WriteString(leanStr(order))
 		}
 		b.WriteString("]\n\n/-- every assignment to `renamer.rename`: (function, right-hand side) -/\n")
 		b.WriteString("def flagWrites : List (String × String) := [\n")
